@@ -104,7 +104,7 @@ def check(run, replay=None):
 
 
 def collect_replay(run, outp, c):
-    stats = None
+    stats, unparsed = None, []
     for l in open(outp):
         rec = json.loads(l)
         if rec["t"] == "stats":
@@ -116,7 +116,9 @@ def collect_replay(run, outp, c):
         elif rec["t"] == "drift":
             run.drift.append("replay %s: %s after %s / %s" % (rec["space"], rec["pred"], json.dumps(rec["hist"]), json.dumps(rec.get("last"))))
         elif rec["t"] == "harness":
-            raise Infra("harness could not parse the printed form: %r" % rec["got"])
+            unparsed.append(rec["got"])
+    if unparsed and not run.violations:
+        raise Infra("harness could not parse the printed form: %r" % unparsed[0])
     if not stats:
         raise Infra("replay produced no stats line")
     run.traces += stats["cases"] + stats["transitions"]
@@ -126,8 +128,11 @@ def collect_replay(run, outp, c):
 
 def judge_traces(run, traces, d, tag):
     for t in traces:
-        if t.get("unparsable"):
+        if t.get("unparsable") and not run.violations:
             raise Infra("harness could not parse the printed form: %r" % t["unparsable"])
+    traces = [t for t in traces if not t.get("unparsable") and t["steps"]]    # (the replayed structures have already shown a violation)
+    if not traces:
+        return
     batch = {"traces": traces, "keys": max(t["keys"] for t in traces), "levels": max(t["levels"] for t in traces)}
     tf = os.path.join(d, "batch_%s.json" % tag)
     with open(tf, "w") as f:
